@@ -145,6 +145,21 @@ def shard_fn(shard, nshards, seed, tier, exe, nhist):
         cases.append(("%d.%d" % (shard, i), out))
     results, crashes = core.run_script(exe, cases, tag="c19", env=core.ambient_env(sh, shard))
     cmdmap = dict(cases)
+    if shard == 0:
+        # one buffer taken to the edge of INT_MAX (2 GiB of real memory): the driver checks itself step by step (see PBGIANT in jcdrv.c)
+        gres, gcr = core.run_script(exe, [("giant", ["PBGIANT"])], tag="c19g", timeout=600)
+        sh.evaluations += 9
+        for cr in gcr:
+            kind, frame = cr.summary()
+            sh.violation("C19/giant-buffer/%s/%s" % (kind, frame), "memory error / undefined operation while a print buffer grows towards INT_MAX (%s)" % kind, {"driver": "jcdrv", "variant": "asan", "script": ["PBGIANT"], "stderr": cr.stderr[-2500:]})
+        for ln in gres.get("giant", [])[:1]:
+            if ln.startswith("= ok"):
+                sh.count("giant_buffer.all_steps_held")
+                sh.count("giant_buffer.last_small_append_" + ("accepted" if "last_append=50" in ln else "refused"))
+            elif ln.startswith("= nomem"):
+                sh.count("giant_buffer.not_enough_memory_inconclusive")
+            else:
+                sh.violation("C19/giant-buffer/" + ln[6:].split(":")[0].replace(" ", "-"), "print buffer near INT_MAX: " + ln[2:], {"driver": "jcdrv", "variant": "asan", "script": ["PBGIANT"]})
     for cr in crashes:
         kind, frame = cr.summary()
         i = min(len(cr.partial), len(cmdmap[cr.cid]) - 1)
